@@ -479,12 +479,40 @@ impl Store {
         // Get the index topic key
         let topic_key = idx_topic_key_from_frame(frame)?;
 
+        let context_key = idx_context_key_from_frame(frame);
+
         let mut batch = self.keyspace.batch();
+
+        // Overwriting an existing id (import): the frame being replaced may sit under
+        // another topic or context; drop its index entries in the same batch.
+        let replaced = self.get(&frame.id);
+        if let Some(old) = &replaced {
+            if let Ok(old_topic_key) = idx_topic_key_from_frame(old) {
+                if old_topic_key != topic_key {
+                    batch.remove(&self.idx_topic, old_topic_key);
+                }
+            }
+            let old_context_key = idx_context_key_from_frame(old);
+            if old_context_key != context_key {
+                batch.remove(&self.idx_context, old_context_key);
+            }
+        }
+
         batch.insert(&self.frame_partition, frame.id.as_bytes(), encoded);
         batch.insert(&self.idx_topic, topic_key, b"");
-        batch.insert(&self.idx_context, idx_context_key_from_frame(frame), b"");
+        batch.insert(&self.idx_context, context_key, b"");
         batch.commit()?;
         self.keyspace.persist(fjall::PersistMode::SyncAll)?;
+
+        // ... and if it was a context registration, it no longer is one
+        if let Some(old) = &replaced {
+            if old.topic == "xs.context"
+                && old.context_id == ZERO_CONTEXT
+                && old.id != ZERO_CONTEXT
+            {
+                self.contexts.write().unwrap().remove(&old.id);
+            }
+        }
 
         // A context registration is usable as soon as it is stored (import path)
         if frame.topic == "xs.context" && frame.context_id == ZERO_CONTEXT {
